@@ -62,11 +62,13 @@ func (c Command) ExecuteIQ(ctx context.Context, iq stanza.IQ, payload xml.TokenR
 	if err != nil {
 		return resp, nil, err
 	}
+	// The return statements below set the named result to nil, so the deferred
+	// function must hold on to the response itself to be able to release it.
+	iqResp := respPayload
 	defer func() {
-		respPayload := respPayload
-		if err != nil && respPayload != nil {
+		if err != nil {
 			/* #nosec */
-			respPayload.Close()
+			iqResp.Close()
 		}
 	}()
 	var t xml.Token
